@@ -81,6 +81,10 @@ fn vf_config_check_untouched_iff_ok() {
         { let mut s = src_bytes.clone(); s.push(b'\n'); edits.push(("newline appended to the source file".to_string(), gen_bytes.clone(), s, good_lock.clone())); }
         { let mut s = src_bytes.clone(); let k = s.len() - 1; s[k] = if s[k] == b' ' { b'\n' } else { b' ' }; edits.push((format!("last byte of the {}-byte source file changed", src_bytes.len()), gen_bytes.clone(), s, good_lock.clone())); }
         { let mut l = good_lock.clone(); l.replace_range(0..1, if l.starts_with('0') { "1" } else { "0" }); edits.push(("lockfile checksum changed".to_string(), gen_bytes.clone(), src_bytes.clone(), l)); }
+        // the lockfile checksum is compared as written: the same digits in another letter case, or with blanks around them, are a change
+        if let Some(k) = good_lock.find(|c: char| c.is_ascii_lowercase()) { let mut l = good_lock.clone(); let up = l[k..k + 1].to_ascii_uppercase(); l.replace_range(k..k + 1, &up); edits.push(("one hex letter of the lockfile checksum written in upper case".to_string(), gen_bytes.clone(), src_bytes.clone(), l)); }
+        edits.push(("lockfile checksum written in upper case".to_string(), gen_bytes.clone(), src_bytes.clone(), good_lock.to_ascii_uppercase()));
+        edits.push(("a blank appended to the lockfile checksum".to_string(), gen_bytes.clone(), src_bytes.clone(), format!("{} ", good_lock)));
         for (name, g, s, l) in edits {
             checked += 1;
             write_all(&g, &s, &l);
